@@ -4,7 +4,7 @@
 //! on another thread.
 
 use crate::framework::*;
-use crate::scenarios::c06::NKEYS;
+const NKEYS: usize = 4;
 use dsim::Rng;
 use metrics::{Key, KeyName, Label, Level, Metadata, Recorder, Unit};
 use metrics_util::debugging::{DebugValue, DebuggingRecorder, Snapshotter};
